@@ -66,14 +66,14 @@ type propSpec struct {
 var coreRule = "one evaluation = one simulated run of a generated program (1-3 concurrent RPCs, scripts for client and handler, fault plan) under one seeded schedule; a run is non-trivial when the property's relevance probe fired in it (see probes); distinct = distinct hash of program structure x order of all operation invocations/returns x fault positions"
 
 var props = map[string]propSpec{
-	"C01": {Profiles: []profSpec{{"c01", 0.7}, {"c01f", 0.3}}, Level: "exploration", Rule: coreRule},
-	"C02": {Profiles: []profSpec{{"c02", 0.7}, {"c02f", 0.3}}, Level: "exploration", Rule: coreRule},
-	"C03": {Profiles: []profSpec{{"c03", 1}}, Level: "exploration", Rule: coreRule},
-	"C04": {Profiles: []profSpec{{"c04", 1}}, Level: "exploration", Rule: coreRule},
-	"C05": {Profiles: []profSpec{{"c05", 1}}, Level: "exploration", Rule: coreRule},
-	"C06": {Profiles: []profSpec{{"c06", 1}}, Level: "exploration", Rule: coreRule},
-	"C07": {Profiles: []profSpec{{"c07", 1}}, Level: "fault_enumeration", Rule: coreRule},
-	"C08": {Profiles: []profSpec{{"c08", 1}}, Level: "exploration", Rule: coreRule},
+	"C01": {Profiles: []profSpec{{"c01", 0.55}, {"c01f", 0.25}, {"wcut", 0.2}}, Level: "exploration", Rule: coreRule},
+	"C02": {Profiles: []profSpec{{"c02", 0.55}, {"c02f", 0.25}, {"wcut", 0.2}}, Level: "exploration", Rule: coreRule},
+	"C03": {Profiles: []profSpec{{"c03", 0.8}, {"c04e", 0.2}}, Level: "exploration", Rule: coreRule},
+	"C04": {Profiles: []profSpec{{"c04", 0.65}, {"c04e", 0.35}, {"c04gc", 0.01}}, Level: "exploration", Rule: coreRule},
+	"C05": {Profiles: []profSpec{{"c05", 0.7}, {"wcut", 0.15}, {"c04e", 0.15}}, Level: "exploration", Rule: coreRule},
+	"C06": {Profiles: []profSpec{{"c06", 0.85}, {"c04e", 0.15}}, Level: "exploration", Rule: coreRule},
+	"C07": {Profiles: []profSpec{{"c07", 0.55}, {"wcut", 0.3}, {"c11", 0.15}}, Level: "fault_enumeration", Rule: coreRule},
+	"C08": {Profiles: []profSpec{{"c08", 0.75}, {"c11", 0.25}}, Level: "exploration", Rule: coreRule},
 	"C09": {Profiles: []profSpec{{"c09", 1}}, Level: "exploration", Rule: coreRule},
 	"C10": {Profiles: []profSpec{{"c10", 1}}, Level: "exploration", Rule: coreRule},
 	"C11": {Profiles: []profSpec{{"c11", 1}}, Level: "exploration", Rule: coreRule},
@@ -389,6 +389,15 @@ func check(prop string, spec propSpec, tier string, seed int64, scratch string) 
 			ntShapes[s] = true
 		}
 		for k, v := range o.Extra {
+			if strings.HasSuffix(k, "_this_worker") {
+				// per-worker counts are summed over the workers
+				if f, ok := v.(float64); ok {
+					tk := strings.TrimSuffix(k, "_this_worker") + "_all_workers"
+					prev, _ := agg.Extra[tk].(float64)
+					agg.Extra[tk] = prev + f
+				}
+				continue
+			}
 			agg.Extra[k] = v
 		}
 		fatals = append(fatals, o.Fatal...)
@@ -532,6 +541,8 @@ func check(prop string, spec propSpec, tier string, seed int64, scratch string) 
 		"distinct_shapes_all":  len(shapes),
 		"scheduler_steps":      agg.Steps,
 		"runs_per_hour":        int(float64(agg.Runs) / searchS * 3600),
+		"seeds_per_hour":       int(float64(agg.Runs) / searchS * 3600),
+		"interleaving_measure": "distinct_shapes_all = distinct hashes of (program structure, order of all operation invocations and returns of all actors, position of context ends); distinct_nontrivial = the same restricted to runs in which the property's relevance probe fired",
 		"seed_base":            seed*1_000_000_007,
 		"seeds":                fmt.Sprintf("worker i explores seeds %d + i*50000000 + k for k = 0,1,2,... (%d workers)", seed*1_000_000_007, len(jobs)),
 		"simulated_time_s":     float64(agg.VirtualNs) / 1e9,
@@ -546,7 +557,7 @@ func check(prop string, spec propSpec, tier string, seed int64, scratch string) 
 		"build_wall_s":         buildS,
 		"tree_hash":            th,
 		"components_real":      []string{"grpchan (., inprocgrpc, httpgrpc, internal) - instrumented copy of /repo's working tree", "net/http client and server (go1.26.8)", "crypto/tls (C13)", "google.golang.org/grpc v1.57.1 status/metadata/codec (+ grpc-go transport where the profile uses the reference carrier)", "google.golang.org/protobuf"},
-		"components_simulated": []string{"goroutine scheduling at grpchan's lock/channel/select/go sites (simrt)", "select choice among ready cases (simgen rewrite)", "clock (testing/synctest)", "network: simnet net.Conn/net.Listener with scheduler-owned delivery, fragmentation, cuts", "clients and handlers (scripts)", "cloner/codec/credentials/interceptor wrappers"},
+		"components_simulated": []string{"goroutine scheduling at grpchan's lock/channel/select/go sites (simrt)", "select choice among ready cases (simgen rewrite)", "clock (testing/synctest)", "network: simnet net.Conn/net.Listener with scheduler-owned delivery, fragmentation, cuts", "clients and handlers (scripts)", "cloner/codec/credentials/interceptor wrappers", "profile c04gc only: real goroutines and clock on an in-memory pipe network outside the synctest bubble, with forced garbage collections as the injected fault"},
 	}
 	for k, v := range agg.Extra {
 		cov[k] = v
